@@ -26,7 +26,7 @@ LANES = {
     "C17": [{"name": "adaptors-release", "profile": "release", "package": "harness-adapt", "bin": "vh-adapt"}],
     "C07": [dict(REL), dict(DBG), {"name": "miri", "profile": "miri", "kind": "script", "script": "miri_lane.py", "timeout": 14400}],
     "C08": [dict(REL), {"name": "miri", "profile": "miri", "kind": "script", "script": "miri_lane.py", "timeout": 14400}],
-    "C13": [dict(REL)],
+    "C13": [dict(REL), {"name": "improved-unicode-release", "profile": "release", "package": "harness-adapt", "bin": "vh-adapt"}],
     "C14": [dict(REL), dict(DBG)],
 }
 
